@@ -566,3 +566,26 @@ package logqlmetric
 //@   ensures[stamped-with-the-grid-time] ret0 ==> r.Timestamp == otelstorage.NewTimestampFromTime(nx_r0)
 //@   ensures[one-sample-with-the-constant] ret0 ==> len(r.Samples) == 1 && same(r.Samples[0].Data, i.value) && typeis[*emptyLabels](r.Samples[0].Set)
 //@   ensures[constant-kept] same(i.value, old(i.value))
+
+// ---- C09: the *_over_time aggregations over unwrapped values fold the window's points, in
+// window order, through a fresh streaming aggregator: reset, every point applied once, result read.
+//@ scope stream_aggregator.go
+//@ func (batchApplier).Aggregate
+//@   capture rs = call(agg.Reset, 0)
+//@   capture ap = call(agg.Apply, 0)
+//@   capture re = call(agg.Result, 0)
+//@   modifies nothing
+//@   ensures[fresh-state-reset-then-read] rs_called && re_called && same(ret0, re_r0)
+//@   loop 0 modifies agg.*
+//@   loop 0 invariant rangeindex+1 <= len(points)
+//@   loop 0 body_ensures[every-point-applied-in-order] ap_called && same(ap_a0, points[rangeindex].Value)
+
+// rate / bytes_rate divide the inner aggregate of the same points by the range in seconds.
+//@ scope aggregator.go
+//@ func (Rate).Aggregate
+//@   capture pa = call(a.preAgg.Aggregate, 0)
+//@   modifies nothing
+//@   ensures[inner-aggregate-per-second] pa_called && same(pa_a0, points) && same(ret0, pa_r0 / a.selRange)
+//@ func (QuantileOverTime).Aggregate
+//@   capture q = call(quantile, 0)
+//@   ensures[quantile-of-the-window] q_called && same(q_a0, a.param) && same(q_a1, points) && same(ret0, q_r0)
